@@ -21,6 +21,7 @@ def run(ctx):
     r20a(ctx)
     r20b(ctx)
     r20c(ctx)
+    r20d(ctx)
 
 
 def hash_enum(prog):
@@ -222,3 +223,38 @@ EXPLANATION = ("Static decision of the gates that make OpenPGP objects tamper-ev
                "plaintext is released only after its tag check. That altered data fails the cryptographic checks and agreement with GnuPG "
                "are not decided.")
 ASSUMPTIONS = ["libgcrypt verify/checktag primitives are correct", "time() is stubbed by a fixed instant in the piecewise evaluation"]
+
+
+def r20d(ctx):
+    """sibling agreement of the signature-object construction sites: where one parse function
+    builds a TMCG_OpenPGP_Signature in its RSA branch and in its DSA/ECDSA/EdDSA branch (two
+    constructor overloads), every like-named constructor parameter receives the same value"""
+    prog = ctx.prog
+    n = 0
+    for key, f in prog.funcs.items():
+        if 'RFC4880' not in f['file'] or not f.get('body'):
+            continue
+        from ..facts import walk
+        if not any(e.get('k') == 'ctor' and e.get('f') == 'TMCG_OpenPGP_Signature' for e in walk(f['body'])):
+            continue
+        a = ctx.analysis(f)
+        T = a.T
+        sites = sorted([ev for nid, ev in a.all_events('ctor') if ev[1] == 'TMCG_OpenPGP_Signature' and ev[4] in prog.funcs], key=lambda ev: ev[3])
+        for s1, s2 in zip(sites, sites[1:]):
+            if s1[4] == s2[4]:
+                continue
+            p1 = [p['n'] for p in prog.funcs[s1[4]]['params']]
+            p2 = [p['n'] for p in prog.funcs[s2[4]]['params']]
+            m1 = dict(zip(p1, s1[2]))
+            m2 = dict(zip(p2, s2[2]))
+            diffs = [(nm, T.show(m1[nm], 3), T.show(m2[nm], 3)) for nm in p1 if nm in m2 and m1[nm] != m2[nm]]
+            n += 1
+            k = 'R20d:%s@%d' % (f['q'], n)
+            k = 'R20d:%s:%d' % (f['q'], sites.index(s1))
+            if diffs:
+                nm, v1, v2 = diffs[0]
+                ctx.bad('R20d', k, 'the RSA and the DSA/ECDSA/EdDSA branch build the signature object differently: parameter %s gets %s (line %d) but %s (line %d)' % (
+                    nm, v1, s1[3], v2, s2[3]), f, line=s1[3])
+            else:
+                ctx.ok('R20d', k, 'both algorithm branches pass the same values for all %d common constructor parameters' % len([x for x in p1 if x in m2]), f, line=s1[3])
+    ctx.floor('R20d', n, 4)
